@@ -66,7 +66,7 @@ def run(ctx):
             text = core.uncps(rec.get("text", [])) if rec else ""
             ctx.report("process died (rc=%s) on %s" % (rc, json.dumps(text)[:100]), {"kind": "api-crash", "event": rec, "rc": rc}, None)
         mism, _, n = ctx.validate(evp)
-        for e in core.read_ndjson(evp):
+        for e in core.iter_ndjson(evp):
             calls += e["calls"]
             ctx.nontrivial.add(hash(tuple(e["text"])) if e["text"] else hash(e["id"]))
             if len(ctx.samples) < 5 and len(e["text"]) in range(5, 60) and len(ctx.nontrivial) % 499 == 1:
